@@ -54,17 +54,18 @@ type vsBehaviour struct {
 
 // A concretisation maps the abstract keys/values of the spec to bytes.
 type vsConc struct {
-	Name string
-	Keys map[string][]byte
+	Name  string
+	Keys  map[string][]byte
+	Width int // >1: every abstract key stands for Width real keys written together (momentum-sized patches)
 }
 
 var vsConcs = []vsConc{
-	{"ascii", map[string][]byte{"k1": []byte("k1"), "k2": []byte("k2")}},
+	{"ascii", map[string][]byte{"k1": []byte("k1"), "k2": []byte("k2")}, 1},
 	{"longprefix", map[string][]byte{
 		"k1": append(append([]byte{0x10}, bytes.Repeat([]byte{0xab}, 40)...), 0x01),
-		"k2": append(append([]byte{0x10}, bytes.Repeat([]byte{0xab}, 40)...), 0x02)}},
-	{"bookkeeping-prefixes", map[string][]byte{"k1": {0x00, 0x00}, "k2": {0x02}}},
-	{"ff-and-nested", map[string][]byte{"k1": {0xff}, "k2": {0xff, 0xff}}},
+		"k2": append(append([]byte{0x10}, bytes.Repeat([]byte{0xab}, 40)...), 0x02)}, 1},
+	{"bookkeeping-prefixes", map[string][]byte{"k1": {0x00, 0x00}, "k2": {0x02}}, 1},
+	{"ff-and-nested", map[string][]byte{"k1": {0xff}, "k2": {0xff, 0xff}}, 1},
 }
 
 func vsVal(v string) []byte {
@@ -83,6 +84,64 @@ func vsAbs(b []byte) string {
 var vsPatches = map[string]map[string]string{
 	"a": {"k1": "a"}, "b": {"k2": "b"}, "c": {"k1": "NONE", "k2": "c"}, "d": {"k1": "d"}, "e": {"k1": "eps"},
 }
+
+func vsFillerID(first string, i int) types.HashHeight {
+	return types.HashHeight{Height: uint64(1 + i), Hash: types.NewHash([]byte(fmt.Sprintf("filler:%s:%d", first, i)))}
+}
+
+type vsFillerCommit struct {
+	first string
+	i     int
+}
+
+func (c *vsFillerCommit) Identifier() types.HashHeight { return vsFillerID(c.first, c.i) }
+func (c *vsFillerCommit) Previous() types.HashHeight {
+	if c.i == 1 {
+		return vsID([]string{c.first})
+	}
+	return vsFillerID(c.first, c.i-1)
+}
+func (c *vsFillerCommit) Serialize() ([]byte, error) { return []byte(fmt.Sprintf("filler:%s:%d", c.first, c.i)), nil }
+
+type vsFillerTx struct {
+	c *vsFillerCommit
+	p db.Patch
+}
+
+func (t *vsFillerTx) GetCommits() []db.Commit { return []db.Commit{t.c} }
+func (t *vsFillerTx) StealChanges() db.Patch  { p := t.p; t.p = nil; return p }
+
+// real identifier of an abstract path under the tall concretisation
+func (t *vsTarget) id(path []string) types.HashHeight {
+	if t.tall > 0 && len(path) == 2 {
+		return types.HashHeight{Height: uint64(1 + t.tall + 1), Hash: types.NewHash([]byte("id:" + strings.Join(path, "/")))}
+	}
+	return vsID(path)
+}
+
+type vsTallCommit struct {
+	t    *vsTarget
+	path []string
+}
+
+func (c *vsTallCommit) Identifier() types.HashHeight { return c.t.id(c.path) }
+func (c *vsTallCommit) Previous() types.HashHeight {
+	if len(c.path) == 2 {
+		return vsFillerID(c.path[0], c.t.tall)
+	}
+	return vsID(c.path[:len(c.path)-1])
+}
+func (c *vsTallCommit) Serialize() ([]byte, error) { return []byte("entry:" + strings.Join(c.path, "/")), nil }
+
+type vsTallTx struct {
+	c *vsTallCommit
+	p db.Patch
+}
+
+func (t *vsTallTx) GetCommits() []db.Commit { return []db.Commit{t.c} }
+func (t *vsTallTx) StealChanges() db.Patch  { p := t.p; t.p = nil; return p }
+
+var vsFillerKey = []byte("zz-filler")
 
 func vsID(path []string) types.HashHeight {
 	if len(path) == 0 {
@@ -120,6 +179,14 @@ func vsNewTx(conc vsConc, parent []string, tag string) *vsTx {
 			p.Delete(conc.Keys[k])
 		} else {
 			p.Put(conc.Keys[k], vsVal(v))
+		}
+		for i := 1; i < conc.Width; i++ {
+			sub := append(append([]byte{}, conc.Keys[k]...), []byte(fmt.Sprintf("#%04d", i))...)
+			if v == "NONE" {
+				p.Delete(sub)
+			} else {
+				p.Put(sub, vsVal(v))
+			}
 		}
 	}
 	path := append(append([]string{}, parent...), tag)
@@ -172,7 +239,7 @@ func vsReadView(conc vsConc, v db.DB) (vsRead, error) {
 				continue
 			}
 			key := append([]byte{}, it.Key()...)
-			if isBookkeeping(key) {
+			if isBookkeeping(key) || bytes.Equal(key, vsFillerKey) {
 				continue
 			}
 			out = append(out, hex.EncodeToString(key)+"="+vsAbs(it.Value()))
@@ -428,6 +495,8 @@ func vsCheckRaw(conc vsConc, dir string, obs vsObs) ([]vsMismatch, error) {
 }
 
 type vsTarget struct {
+	tall  int    // >0: "tall" concretisation - `tall` filler commits (touching an unrelated key) sit between abstract height 1 and 2,
+	             // so that views of height 1 are far behind the frontier (the store's second-level view cache)
 	kind  string // "ldb" | "mem"
 	dir   string
 	m     db.Manager
@@ -448,7 +517,7 @@ func (t *vsTarget) exec(conc vsConc, s vsStep) (string, error) {
 	switch s.A {
 	case "OpenView":
 		before := db.GetFrontierIdentifier(t.m.Frontier())
-		v := t.m.Get(vsID(s.Id))
+		v := t.m.Get(t.id(s.Id))
 		if v == nil {
 			return "nil", nil
 		}
@@ -457,14 +526,30 @@ func (t *vsTarget) exec(conc vsConc, s vsStep) (string, error) {
 			t.vhist = append(t.vhist, false)
 		}
 		t.views[s.Slot-1] = v
-		t.vhist[s.Slot-1] = t.kind == "ldb" && vsID(s.Id) != before && len(s.Id) > 0
+		t.vhist[s.Slot-1] = t.kind == "ldb" && t.id(s.Id) != before && len(s.Id) > 0
 		return "ok", nil
 	case "CloseView":
 		t.views[s.Slot-1] = nil
 		return "ok", nil
 	case "Commit":
 		before := db.GetFrontierIdentifier(t.m.Frontier())
-		err := t.m.Add(vsNewTx(conc, s.Parent, s.Tag))
+		var err error
+		if t.tall > 0 {
+			tx := vsNewTx(conc, s.Parent, s.Tag)
+			err = t.m.Add(&vsTallTx{&vsTallCommit{t, tx.commit.path}, tx.patch})
+			if err == nil && len(s.Parent) == 0 && db.GetFrontierIdentifier(t.m.Frontier()) == vsID([]string{s.Tag}) {
+				for i := 1; i <= t.tall; i++ { // the filler commits on top of abstract height 1
+					p := db.NewPatch()
+					p.Put(vsFillerKey, []byte(fmt.Sprintf("f%d", i)))
+					if e := t.m.Add(&vsFillerTx{&vsFillerCommit{s.Tag, i}, p}); e != nil {
+						return "", e
+					}
+				}
+				return "frontier-moved", nil
+			}
+		} else {
+			err = t.m.Add(vsNewTx(conc, s.Parent, s.Tag))
+		}
 		after := db.GetFrontierIdentifier(t.m.Frontier())
 		if err != nil {
 			if after != before {
@@ -475,11 +560,18 @@ func (t *vsTarget) exec(conc vsConc, s vsStep) (string, error) {
 		if after == before {
 			return "silent-nochange", nil
 		}
-		if after == vsID(append(append([]string{}, s.Parent...), s.Tag)) {
+		if after == t.id(append(append([]string{}, s.Parent...), s.Tag)) {
 			return "frontier-moved", nil
 		}
 		return "frontier-elsewhere", nil
 	case "Pop":
+		if t.tall > 0 && db.GetFrontierIdentifier(t.m.Frontier()).Height == uint64(1+t.tall) {
+			for i := 0; i < t.tall; i++ { // abstract height 1 -> 0: the fillers go first
+				if err := t.m.Pop(); err != nil {
+					return "error", nil
+				}
+			}
+		}
 		if err := t.m.Pop(); err != nil {
 			return "error", nil
 		}
@@ -527,6 +619,10 @@ type vsOutcome struct {
 
 // vsReplay runs one behaviour on a fresh store of the given kind and compares.
 func vsReplay(kind string, conc vsConc, b *vsBehaviour, scratch string) (out vsOutcome, err error) {
+	return vsReplayT(kind, 0, conc, b, scratch)
+}
+
+func vsReplayT(kind string, tall int, conc vsConc, b *vsBehaviour, scratch string) (out vsOutcome, err error) {
 	defer func() {
 		if r := recover(); r != nil {
 			out.Mismatches = append(out.Mismatches, vsMismatch{"panic", fmt.Sprintf("panic during replay: %v", r)})
@@ -537,7 +633,7 @@ func vsReplay(kind string, conc vsConc, b *vsBehaviour, scratch string) (out vsO
 		return out, e
 	}
 	defer os.RemoveAll(dir)
-	t := &vsTarget{kind: kind, dir: dir}
+	t := &vsTarget{kind: kind, dir: dir, tall: tall}
 	t.open()
 	stopped := false
 	defer func() {
@@ -562,7 +658,11 @@ func vsReplay(kind string, conc vsConc, b *vsBehaviour, scratch string) (out vsO
 	obs := b.Obs
 	// frontier
 	fid := db.GetFrontierIdentifier(t.m.Frontier())
-	if fid != vsID(obs.Chain) {
+	wantFid := t.id(obs.Chain)
+	if tall > 0 && len(obs.Chain) == 1 {
+		wantFid = vsFillerID(obs.Chain[0], tall)
+	}
+	if fid != wantFid {
 		out.Mismatches = append(out.Mismatches, vsMismatch{"frontier-id", fmt.Sprintf("frontier identifier is %v, specification says path %v", fid, obs.Chain)})
 	}
 	var allKeys []string
@@ -593,6 +693,9 @@ func vsReplay(kind string, conc vsConc, b *vsBehaviour, scratch string) (out vsO
 	// a view opened now at every findable identifier
 	for h := 0; h <= len(obs.Chain); h++ {
 		_ = h
+	}
+	if tall > 0 {
+		return out, nil // heights are scaled: the stored patches are compared in the plain concretisations
 	}
 	// redo patches through the public API
 	for h := 1; h <= len(obs.Chain); h++ {
